@@ -65,6 +65,12 @@ func (x *Exec) callValue(f *Frame, st *State, ins ssa.Instruction, fv Value, arg
 			}
 			return nil, false
 		}
+		// calling a nil function value panics
+		if f != nil && f.wantSafety() && fn.S == RefS {
+			nn := x.B.Neq(fn, x.B.IntC(0))
+			x.oblige("safety-nilcall", "the function value called here is not nil", f.where(ins), st, nn)
+			st.PC = x.B.And(st.PC, nn)
+		}
 		return x.opaqueCall(f, st, ins, fn, args, sig), true
 	}
 	unsupported("call of %T", fv)
